@@ -5,6 +5,9 @@ cd /verif
 WT=/tmp/verif-sweep-wt
 git -C /repo worktree remove --force $WT 2>/dev/null; rm -rf $WT
 git -C /repo worktree add -q $WT HEAD || exit 2
+# frozen copy of the simulator sources: edits made while the sweep runs do not reach it
+export VERIF_SIMSRC=/tmp/verif-sweep-sim
+rm -rf $VERIF_SIMSRC; cp -r sim $VERIF_SIMSRC
 for s in "$@"; do
   for p in $(python3 -c "import json; print(' '.join(c['property_id'] for c in json.load(open('/verif/MANIFEST.json'))['checks']))"); do
     out=$(VERIF_REPO=$WT VERIF_SEED=$s VERIF_WORKERS=${VERIF_WORKERS:-4} ./check.sh $p quick 2>&1)
@@ -12,4 +15,4 @@ for s in "$@"; do
     echo "seed=$s $p exit=$rc $(echo "$out" | grep -E '^violation|TROUBLE' | head -2 | cut -c1-250 | tr '\n' ' ')"
   done
 done
-git -C /repo worktree remove --force $WT; rm -rf $WT
+git -C /repo worktree remove --force $WT; rm -rf $WT $VERIF_SIMSRC
